@@ -126,16 +126,92 @@ def gen(t, n):
         return "__out(1); var o = {}; o.p = o; o.v = 7; o" + ".p" * n + ".v", 7
     if t == "comma_chain":
         return "__out(1); var s = 0; (" + ", ".join(["s += 1"] * max(n, 1)) + "); s", max(n, 1)
+    # constructs whose own jumps are short but which START after n statements of straight-line code (their back-edges and
+    # handler addresses are then the large numbers)
+    if t.startswith("after_"):
+        pre = "__out(1); var s = 0; " + "s += 1; " * n
+        body, extra = AFTER[t[6:]]
+        return pre + body + "; s", n + extra
+    if t.startswith("fafter_"):
+        body, extra = AFTER[t[7:]]
+        return "__out(1); function f() { var s = 0; " + "s += 1; " * n + body + "; return s } f()", n + extra
+    # large literals: the value is that of the mathematical number, rounded to double (Infinity beyond the range)
+    if t == "dec_digits":
+        return "__out(1); 1" + "0" * n, _to_double(10 ** n)
+    if t == "dec_nines":
+        return "__out(1); 9" + "9" * n, _to_double(10 ** (n + 1) - 1)
+    if t == "hex_digits":
+        return "__out(1); 0x1" + "f" * n, _to_double(int("1" + "f" * n, 16))
+    if t == "bin_digits":
+        return "__out(1); 0b1" + "0" * n, _to_double(2 ** n)
+    if t == "oct_digits":
+        return "__out(1); 0o1" + "7" * n, _to_double(int("1" + "7" * n, 8))
+    if t == "frac_zeros":
+        return "__out(1); 0." + "0" * n + "1", float("0." + "0" * n + "1")
+    if t == "frac_digits":
+        return "__out(1); 1." + "3" * n, float("1." + "3" * n)
+    if t == "exponent":
+        return "__out(1); 1e%d" % n, float("1e%d" % n)
+    if t == "neg_exponent":
+        return "__out(1); 1e-%d" % n, float("1e-%d" % n)
+    if t == "digits_exponent":
+        return "__out(1); 1" + "0" * n + "e-%d" % n, float("1" + "0" * n + "e-%d" % n)
+    if t == "string_digits":
+        return "__out(1); +'1" + "0" * n + "'", _to_double(10 ** n)
+    # a program refused inside a nested evaluation, over and over: every refusal is the same catchable error and leaves
+    # nothing behind (callbacks and further evals still work)
+    if t in ("eval_refused", "function_refused"):
+        big = "[" + ", ".join("%d" % k for k in range(300)) + "]"
+        call = "eval(big)" if t == "eval_refused" else "Function('return ' + big)"
+        return ("__out(1); var big = '%s', msgs = {}, r = 0; for (var i = 0; i < %d; i++) { try { %s; r += 1000000 } catch (e) { r++; "
+                "msgs[e.name + ':' + e.message] = 1 } } var k = Object.keys(msgs); var okmsg = %d === 0 || (k.length === 1 && /too (large|many)/i.test(k[0])); "
+                "r * 1000 + [1, 2, 3].map(function (x) { return x * 2 }).length * 100 + (okmsg ? 10 : 0) + eval('1 + 1')"
+                % (big, n, call, n)), n * 1000 + 300 + 10 + 2
     raise ValueError(t)
+
+
+def _to_double(i):
+    try:
+        return float(i)
+    except OverflowError:
+        return float("inf")
+
+
+AFTER = {
+    "dowhile": ("var i = 0; do { i++; s += 10 } while (i < 3)", 30),
+    "while": ("var i = 0; while (i < 3) { i++; s += 10 }", 30),
+    "for": ("for (var i = 0; i < 3; i++) { s += 10 }", 30),
+    "forin": ("for (var k in {a: 1, b: 2, c: 3}) { s += 10 }", 30),
+    "forof": ("for (var k of [1, 2, 3]) { s += 10 }", 30),
+    "continue": ("var i = 0; do { i++; if (i === 2) continue; s += 10 } while (i < 3)", 20),
+    "labelled": ("var i = 0; L: do { i++; do { s += 10; continue L } while (true); } while (i < 3)", 30),
+    "if": ("var c = 0; if (c) { s += 10 } else { s += 20 } if (!c) { s += 100 }", 120),
+    "cond": ("var c = 0; s += c ? 10 : 20; s += !c ? 100 : 200", 120),
+    "logical": ("var c = 0; s += c || 20; s += (c && 10) + 100;", 120),
+    "switch": ("switch (2) { case 1: s += 1; case 2: s += 10; case 3: s += 20; break; default: s += 1000 }", 30),
+    "trycatch": ("try { s += 10; throw 1 } catch (e) { s += 20 }", 30),
+    "tryfinally": ("try { try { s += 10; throw 1 } finally { s += 20 } } catch (e) { s += 100 }", 130),
+    "tryloop": ("for (var i = 0; i < 3; i++) { try { if (i === 1) continue; s += 10 } finally { s += 100 } }", 320),
+    "call": ("var f = function (a) { for (var i = 0; i < 3; i++) a += 10; return a }; s = f(s)", 30),
+    "callback": ("[1, 2, 3].forEach(function (x) { s += 10 })", 30),
+}
 
 
 TEMPLATES = ["dowhile_continue", "for_continue", "callback_loop", "callback_branch", "comparator_try", "getter_switch", "stmts_program", "stmts_function", "loop_body", "while_body", "then_taken", "then_skipped", "cond_expr",
              "before_catch", "finally_after", "break_far", "switch_cases", "switch_default", "array_literal",
              "object_literal", "call_args", "params", "num_constants", "str_constants", "globals", "locals", "captured",
              "function_literals", "string_literal", "sum_chain", "member_chain", "comma_chain",
-             "locals_sum", "captured_sum", "captured_bump", "captured_deep", "params_sum", "globals_sum", "cellvars_owner"]
+             "locals_sum", "captured_sum", "captured_bump", "captured_deep", "params_sum", "globals_sum", "cellvars_owner"] \
+    + ["after_" + k for k in AFTER] + ["fafter_" + k for k in AFTER]
+LITERALS = ["dec_digits", "dec_nines", "hex_digits", "bin_digits", "oct_digits", "frac_zeros", "frac_digits", "exponent", "neg_exponent",
+            "digits_exponent", "string_digits"]
+LIT_NS = sorted(set([0, 1, 2, 14, 15, 16, 17, 18, 20, 21, 22, 52, 53, 54, 63, 64, 65, 100, 254, 255, 256, 257, 300, 306, 307, 308, 309, 310, 311,
+                     322, 323, 324, 325, 326, 340, 341, 342, 343, 400, 512, 1000, 1021, 1022, 1023, 1024, 1025, 1026, 1074, 1075, 1076, 2000, 4096, 20000]))
+REFUSED = ["eval_refused", "function_refused"]
+REFUSED_NS = [0, 1, 2, 10, 38, 39, 40, 41, 42, 49, 50, 51, 79, 80, 81, 100, 127, 128, 129, 199, 200, 201, 255, 256, 257, 500]
 JUMPY = ["dowhile_continue", "for_continue", "callback_loop", "callback_branch", "comparator_try", "getter_switch", "stmts_program", "stmts_function", "loop_body", "while_body", "then_taken", "then_skipped", "cond_expr",
-         "before_catch", "finally_after", "break_far", "switch_cases", "switch_default", "num_constants"]
+         "before_catch", "finally_after", "break_far", "switch_cases", "switch_default", "num_constants"] \
+    + ["after_" + k for k in AFTER] + ["fafter_" + k for k in AFTER]
 NS = [0, 1, 2, 127, 128, 254, 255, 256, 257, 511, 512, 1023, 4096]
 
 
@@ -159,6 +235,8 @@ def run_scale(payload):
     from mc.props.common import engine
     e = engine()
     r = _run_one(e, payload["t"], payload["n"])
+    if r == "refused" and payload["n"] <= 2 and payload["t"] not in REFUSED:
+        r = "small program refused"      # would make the whole template vacuous
     return r + "\x00" + ("refused" if r == "refused" else "ok")
 
 
@@ -231,7 +309,7 @@ def _boundary_cases(limit, window, mult):
              {"t": t, "limit": limit, "window": window, "mult": mult}) for t in JUMPY]
 
 
-def _sp(name, runner, fn, rule, bound, batch=1, watchdog=300):
+def _sp(name, runner, fn, rule, bound, batch=1, watchdog=200):
     return Space(name, "mc.props.c14:" + runner, fn, oracle="inline", rule=rule, bound=bound, batch=batch, watchdog=watchdog,
                  nontrivial=lambda cid, p, exp: p.get("n", 2) >= 2)
 
@@ -243,6 +321,15 @@ def spaces(tier, seed, all_strata=False):
             "arguments, parameters, distinct numeric/string constants, globals, locals, captured variables, function "
             "literals, long string literal, +/member/comma chains) x n in {0,1,2,127,128,254,255,256,257,511,512,1023,4096}; "
             "result = closed form in n, or a JSError before the first statement ran", "n up to 4096", batch=4),
+        _sp("c14_literals", "run_scale", lambda: _scale_cases(LIT_NS, LITERALS),
+            "%d numeric-literal spellings (decimal / hex / binary / octal digit runs, fraction zeros and digits, exponents, digits with "
+            "a cancelling exponent, the same digits converted from a string) x %d lengths across 2^53, 2^64, 1e21, the double range "
+            "(309 decimal digits, 2^1024) and the denormal range; value = the mathematical number rounded to double" % (len(LITERALS), len(LIT_NS)),
+            "digit runs up to 20000", batch=8),
+        _sp("c14_refused_nested", "run_scale", lambda: _scale_cases(REFUSED_NS, REFUSED),
+            "a program that is too large (an array literal of 300 elements) handed to eval / Function n times inside one evaluation, n across the native-depth "
+            "budget (40, 50, 80, 100, 200, 256): every refusal is the same catchable error naming the size, and callbacks and further evals "
+            "work afterwards", "n up to 500", batch=2),
         _sp("c14_jump65535", "run_boundary", lambda: _boundary_cases(65535, 3, [2, 4]),
             "19 jump-bearing templates: n* = first n whose bytecode exceeds 65535 bytes (binary search on the real "
             "compiler), every n in [n*-3, n*+3], plus 2n* and 4n*", "65535 +- 3"),
